@@ -1,4 +1,6 @@
 pub mod c01;
+pub mod c03;
+pub mod acc;
 
 use crate::rt::{Ctx, Tier};
 
@@ -11,6 +13,10 @@ pub fn run(id: &str, tier: Tier, seed: u64) -> i32 {
     match id {
         "C01" => c01::run(&ctx, false),
         "C02" => c01::run(&ctx, true),
+        "C03" => c03::run(&ctx, false),
+        "C04" => c03::run(&ctx, true),
+        "C08" => acc::run(&ctx, false),
+        "C09" => acc::run(&ctx, true),
         _ => {
             eprintln!("unknown property {id}");
             return 2;
